@@ -124,6 +124,8 @@ def seqm_parameters(cfg):
     sp = {"method": cfg.get("method", "AM1"), "scf_eps": cfg.get("scf_eps", 1.0e-8), "scf_converger": list(cfg.get("scf_converger", [1]))}
     if cfg["driver"] == "stub":
         sp["_stub"] = dict(cfg.get("stub", {}))
+    if cfg.get("uhf"):
+        sp["UHF"] = True
     eng = cfg["engine"]
     if eng in EXC_ENGINES:
         sp["excited_states"] = {"n_states": cfg.get("n_states", 3), "method": "cis"}
